@@ -349,8 +349,43 @@ func (o *Oracle) judgeProxyCallback(e *Exchange, pol *Policy) {
 	}
 	_, rq, _ := requestPath(e.Target)
 	q, _ := url.ParseQuery(rq)
-	state, code := q.Get("state"), q.Get("code")
+	// a request may carry its parameters in the query string, in a form body, or in both with different values;
+	// "the request carries a state parameter … " is read generously: a session is justified if SOME carried
+	// state (and some carried code) meets the conditions
+	if m := e.Method; (m == "POST" || m == "PUT" || m == "PATCH") && strings.HasPrefix(e.ReqHdr.Get("Content-Type"), "application/x-www-form-urlencoded") {
+		if bq, err := url.ParseQuery(string(e.ReqBody)); err == nil {
+			merged := url.Values{}
+			for k, vs := range bq {
+				merged[k] = append(merged[k], vs...)
+			}
+			for k, vs := range q {
+				merged[k] = append(merged[k], vs...)
+			}
+			q = merged
+		}
+	}
 	csrfVals := cookieValues(e.ReqHdr.Values("Cookie"), ProxyCookieName+"_csrf")
+	state, code := q.Get("state"), q.Get("code")
+	if len(q["state"]) > 1 || len(q["code"]) > 1 {
+		o.res.cover("C06|callback-with-several-state-or-code-values")
+		csrf0 := ""
+		if len(csrfVals) > 0 {
+			csrf0 = csrfVals[0]
+		}
+		for _, cand := range q["state"] {
+			x, y := &proxy.StateParameter{}, &proxy.StateParameter{}
+			if cand != csrf0 && o.w.ProxyCipher.Unmarshal(cand, x) == nil && o.w.ProxyCipher.Unmarshal(csrf0, y) == nil && *x == *y {
+				state = cand
+				break
+			}
+		}
+		for _, cand := range q["code"] {
+			if o.openAuthCode(cand) != nil {
+				code = cand
+				break
+			}
+		}
+	}
 	nv := newSessionCookie(e, ProxyCookieName)
 	at, done := o.abs(e.At), o.abs(e.Done)
 
